@@ -14,6 +14,7 @@ def run(rep: Report, repo: Repo, tier: str) -> None:
     misc_rules.rule_decode(rep, repo, "C01-R1")
     bindings.rule_pairing(rep, repo, "C01-R2")
     bindings.rule_doc_storage(rep, repo, "C01-R3")
+    bindings.rule_module_doc_verbatim(rep, repo, "C01-R3m")
     render.rule_doc_rendering(rep, repo, "C01-R4")
     writer_rules.rule_paragraph(rep, repo, "C01-R5")
     misc_rules.rule_clean_parameters(rep, repo, "C01-R6")
